@@ -16,7 +16,7 @@ import (
 	"runtime"
 	"syscall"
 
-	"verifharness/c12/cx"
+	"verifharness/c12/cspec"
 )
 
 func init() { runtime.LockOSThread() }
@@ -31,7 +31,7 @@ func main() {
 		fmt.Fprintln(os.Stderr, err)
 		os.Exit(3)
 	}
-	var s cx.Spec
+	var s cspec.Spec
 	if err := json.Unmarshal(b, &s); err != nil {
 		fmt.Fprintln(os.Stderr, err)
 		os.Exit(3)
@@ -47,7 +47,7 @@ func main() {
 		n = 1
 	}
 	// marker: a syscall that cannot succeed and touches nothing, visible in the trace
-	syscall.Mkdir(cx.Marker, 0)
+	syscall.Mkdir(cspec.Marker, 0)
 	for i := 0; i < n; i++ {
 		switch s.Op {
 		case "store":
